@@ -108,6 +108,9 @@ var guardSpecs = []guardSpec{
 	{"useNamespaceGuard", "pkg/controller.v1beta1/experiment/manifest/generator.go", "applyParameters", `stmt=:placeHolderToValueMap[param.Name] = trialNamespace`, tplAtoms, tplParams, true},
 	{"useKindGuard", "pkg/controller.v1beta1/experiment/manifest/generator.go", "applyParameters", `stmt=:placeHolderToValueMap[param.Name] = trialSpec.GetKind()`, tplAtoms, tplParams, true},
 	{"useAPIVersionGuard", "pkg/controller.v1beta1/experiment/manifest/generator.go", "applyParameters", `stmt=:placeHolderToValueMap[param.Name] = trialSpec.GetAPIVersion()`, tplAtoms, tplParams, true},
+	{"errCountGuard", "pkg/controller.v1beta1/experiment/manifest/generator.go", "applyParameters", `ident:errParamNotFoundInTrialParameters`, tplPostAtoms, tplPostParams, false},
+	{"replaceAllGuard", "pkg/controller.v1beta1/experiment/manifest/generator.go", "applyParameters", `strings.Replace(trialTemplate`, tplPostAtoms, tplPostParams, true},
+	{"returnTemplateGuard", "pkg/controller.v1beta1/experiment/manifest/generator.go", "applyParameters", `stmt=:return trialTemplate, nil`, tplPostAtoms, tplPostParams, false},
 	{"mapByParamGuard", "pkg/suggestion/v1beta1/goptuna/service.go", "syncTrials", `findGoptunaTrialIDByParam(`, gsAtoms, gsParams, true},
 	{"recordMappingGuard", "pkg/suggestion/v1beta1/goptuna/service.go", "syncTrials", `stmt:s.trialMapping[katibTrialName] = gtrialID`, gsAtoms, gsParams, true},
 	{"setTrialValueGuard", "pkg/suggestion/v1beta1/goptuna/service.go", "syncTrials", `s.study.Storage.SetTrialValue(`, gsAtoms, gsParams, true},
@@ -283,6 +286,13 @@ var tplAtoms = map[string]string{
 }
 var tplParams = []string{"failed1", "failed2", "specNil", "plainRef", "found1", "found2", "found3", "indexedRef", "badIndex", "keyName", "keyNamespace",
 	"keyKind", "keyAPIVersion", "keyAnnotations", "keyLabels"}
+
+// sites after the loop of applyParameters: the loop is passed under `loopDone`
+var tplPostAtoms = map[string]string{
+	"err != nil": "failed#", "trialSpec == nil": "specNil", "loop:experiment.Spec.TrialTemplate.TrialParameters": "loopDone",
+	"len(assignments) != nonMetaParamCount": "countMismatch",
+}
+var tplPostParams = []string{"failed1", "failed2", "specNil", "loopDone", "countMismatch"}
 
 var gsAtoms = map[string]string{
 	"found": "found", "err != nil": "failed#", "gtrial.State.IsFinished()": "finished", "ktrial.State == gtrial.State": "sameState",
@@ -501,6 +511,9 @@ func (g *guardWalker) walk(stmts []ast.Stmt, pc string) string {
 				} else {
 					g.unsupported = append(g.unsupported, fmt.Sprintf("%T", x))
 				}
+			} else if a, ok := g.loopAtom(x.X); ok {
+				// `loop:<range expression>` atom: the loop ran to its end without returning
+				factor = gAnd(factor, a)
 			} else {
 				g.skipped(x)
 			}
@@ -544,6 +557,14 @@ func (g *guardWalker) walk(stmts []ast.Stmt, pc string) string {
 		}
 	}
 	return factor
+}
+
+// loopAtom: a loop that does not hold the site and can return is passed under the named atom "it ran to its end without
+// returning", when the spec declares one for its range expression (key `loop:<expr>`); what the atom means is read off the
+// model's loop (which is itself tied to the loop body by the *_loop_is_source theorems)
+func (g *guardWalker) loopAtom(rangeExpr ast.Expr) (string, bool) {
+	a, ok := g.spec.atoms["loop:"+nodeSrc(g.fset, rangeExpr)]
+	return a, ok
 }
 
 // skipped: a loop / switch / select that does not hold the site is not walked; a `return` inside it would change the reach
